@@ -40,12 +40,12 @@ struct CheckDef {
 };
 
 static std::vector<CheckDef> g_checks = {
-        { "C01", "exploration", { { "hashmgr", 1 } }, 24000, 3000000, 50, 900, false, false,
+        { "C01", "exploration", { { "hashmgr", 5 }, { "l2mgr", 1 } }, 30000, 3000000, 50, 900, false, false,
           "cases: seeded plans (algorithm x family x client count x segmentation x submit/flush/restart interleaving); "
           "distinct_nontrivial: distinct manager states reached, state = hash(algorithm, family, |in flight|, sorted remaining-block buckets "
           "of in-flight jobs, #idle, #complete clients, last op kind) at which at least one job was in flight",
           { "reference hashes trusted after start-up vector self-check", "sampling, not proof" } },
-        { "C06", "exploration", { { "hashmgr", 1 } }, 24000, 3000000, 50, 900, false, false,
+        { "C06", "exploration", { { "hashmgr", 5 }, { "l2mgr", 1 } }, 30000, 3000000, 50, 900, false, false,
           "cases: seeded plans over submit/flush/drain/restart/zero-length-LAST histories on every (algorithm, family); "
           "distinct_nontrivial: distinct manager states (as C01) reached with a conservation invariant evaluated",
           { "lane capacity per family read from the family's manager-init code", "sampling, not proof" } },
@@ -73,7 +73,7 @@ static std::vector<CheckDef> g_checks = {
           "key data, restarts; oracle = one-shot call of the same family; distinct_nontrivial: distinct (family, key size, direction, "
           "carried partial length, fragment residue, fragment class, nt, in-place) cells",
           { "the one-shot call of the same family is the oracle, not an object under test (that would be C02)" } },
-        { "C08", "exploration", { { "hashmgr", 3 }, { "stream", 4 }, { "oneshot", 4 } }, 40000, 4000000, 50, 900, false, false,
+        { "C08", "exploration", { { "hashmgr", 3 }, { "stream", 4 }, { "oneshot", 4 }, { "l2mgr", 2 } }, 40000, 4000000, 50, 900, false, false,
           "cases: mixed batch of all workloads (hash managers, streaming objects, one-shot AES client) with every buffer placed end-flush, "
           "start-flush or mid-slot in a guard-paged arena (seeded), canaries around every range, checksums of every input/constant object; "
           "only the memory-map monitor decides; distinct_nontrivial: distinct workload states reached (union of the HashMgrSim, StreamSim "
@@ -90,13 +90,13 @@ static std::vector<CheckDef> g_checks = {
             "distinct byte values are not used as needles",
             "the dead-stack search is restricted to 4 KiB chunks that differ from the pre-call poison (a chunk identical to the poison cannot hold a "
             "secret)" } },
-        { "C19", "exploration", { { "hashmgr", 2 }, { "stream", 3 }, { "oneshot", 3 }, { "dispatch", 1 } }, 40000, 4000000, 50, 900, false, false,
+        { "C19", "exploration", { { "hashmgr", 2 }, { "stream", 3 }, { "oneshot", 3 }, { "dispatch", 1 }, { "l2mgr", 3 } }, 40000, 4000000, 50, 900, false, false,
           "cases: every library call of the mixed batch (hash managers, streaming objects, one-shot AES, dispatch resolvers) goes through the "
           "register-poisoning trampoline; rsp, rbx, rbp, r12-r15, DF, MXCSR control bits, x87 CW and 64 canary bytes above the callee's frame "
           "are compared after each call; distinct_nontrivial: distinct workload states (as C08) plus distinct (entry, bound target) pairs for "
           "the resolvers",
           { "exit paths are reached through the workloads' histories and length classes, not enumerated from the source" } },
-        { "C20", "exploration", { { "hashmgr", 3 }, { "stream", 4 }, { "oneshot", 3 } }, 24000, 2400000, 50, 900, true, false,
+        { "C20", "exploration", { { "hashmgr", 3 }, { "stream", 4 }, { "oneshot", 3 }, { "l2mgr", 2 } }, 24000, 2400000, 50, 900, true, false,
           "cases: every plan of the mixed batch is executed twice with different hidden seeds (output prefill, uninitialised object memory, bytes "
           "beyond len, caller-saved/vector/mask registers, flags, 64 KiB dead stack) and identical schedule/transport/fault streams and "
           "addresses; the two observable histories must be identical; distinct_nontrivial: distinct workload states (as C08)",
@@ -168,6 +168,8 @@ static Sim *get_sim(const std::string &n)
                 s = make_hashmgr_sim();
         else if (n == "hashlong")
                 s = make_hashlong_sim();
+        else if (n == "l2mgr")
+                s = make_l2mgr_sim();
         else if (n == "stream")
                 s = make_stream_sim();
         else if (n == "oneshot")
